@@ -297,6 +297,7 @@ class SimPool:
 
     STEP_CAP = 4000
     sim = None      # (chooser, eventlog, stats dict) installed by the engine before the run
+    cpus = None     # simulated os.cpu_count() of this run (the engine patches os.cpu_count to the same number)
 
     def __init__(self, processes=None, initializer=None, initargs=(), maxtasksperchild=None, context=None):
         if SimPool.sim is None:
@@ -304,7 +305,8 @@ class SimPool:
         self.chooser, self.log, self.stats = SimPool.sim
         self.stats["seam_hits"] = self.stats.get("seam_hits", 0) + 1
         if processes is None:
-            processes = 1 + self.chooser.draw(16, "pool.size")
+            # "cpu count" is a property of the machine, hence of the simulated configuration
+            processes = SimPool.cpus if SimPool.cpus else 1 + self.chooser.draw(16, "pool.size")
         if processes < 1:
             raise ValueError("Number of processes must be at least 1")
         if maxtasksperchild is not None and (not isinstance(maxtasksperchild, int) or maxtasksperchild <= 0):
